@@ -282,6 +282,7 @@ class Ctx:
         self.actions = {}
         self.trace_actions = {}
         self.notes = []
+        self.note_counts = {}
         self.assumptions = []
         self.constants = {}
         self.findings = []       # dicts: key, what, known(bool), replay
@@ -303,6 +304,10 @@ class Ctx:
     # ---------------- TLC ----------------
     def mc(self, module, cfg, name=None, expect_ok=True, **kw):
         """Exhaustive model checking; any violated property of the Spec is a finding."""
+        if os.environ.get("VERIF_SKIP_MC"):     # mutant sweeps only: the Spec is unchanged, skip its MC run
+            r = TLCResult(); r.ok = r.completed = True; r.states = r.transitions = 1
+            self.notes.append("MC skipped (VERIF_SKIP_MC)")
+            return r
         r = run_tlc(module, cfg, self.workdir, mode="mc", **kw)
         self._account(r, name or ("MC %s" % module))
         if r.errors or r.timed_out or (not r.completed and not r.violated):
@@ -369,6 +374,8 @@ class Ctx:
             self._account(r, name or ("TRACE %s" % module), trace=True)
             if r.errors or r.timed_out:
                 raise MachineryError("TLC TRACE failed on %s: %s (see %s)\n%s" % (module, r.errors[:3], r.outfile, r.out[-3000:]))
+            for t in r.tuples("VF_NOTE"):
+                self.note_counts[t[3]] = self.note_counts.get(t[3], 0) + 1
             acc = {t[1] for t in r.tuples("VF_ACCEPT")}
             rej = {}
             for t in r.tuples("VF_REJECT"):
@@ -501,6 +508,8 @@ class Ctx:
             cov["trace_action_coverage"] = self.trace_actions
         if self.exhaustive is not None:
             cov["exhaustive"] = bool(self.exhaustive)
+        if self.note_counts:
+            self.notes.append("non-verdict observations from trace validation: %s" % json.dumps(self.note_counts))
         if self.notes:
             cov["notes"] = self.notes
         cov["known_findings_seen"] = [{"key": f["kkey"], "count": f["count"]} for f in self.findings if f["known"]]
